@@ -304,9 +304,26 @@ def proof_leg(prop: str):
     info["obligations"] = len(info["theorems"])
     info["closed_theorems"] = closed
     # gate over the whole development
-    for f in sorted((COQ_DIR / "theories").rglob("*.v")):
-        txt = re.sub(r"\(\*.*?\*\)", "", f.read_text(), flags=re.S)
-        for m in GATE_RE.finditer(txt):
+    # (the files of the build, i.e. those listed in _CoqProject, plus any unlisted file a listed file
+    #  Requires; other files lying around in theories/ — work in progress — are not part of the development)
+    allv = sorted((COQ_DIR / "theories").rglob("*.v"))
+    texts = {}
+    for f in allv:
+        try:
+            texts[f] = re.sub(r"\(\*.*?\*\)", "", f.read_text(), flags=re.S)
+        except OSError:
+            texts[f] = ""
+    listed_set = {ln.strip() for ln in listed.splitlines() if ln.strip().endswith(".v") and not ln.strip().startswith("#")}
+    in_build = [f for f in allv if str(f.relative_to(COQ_DIR)) in listed_set]
+    requires = " ".join(" ".join(re.findall(r"Require[^.]*(?:\.[A-Za-z_][^.]*)*\.\s", texts[f] + " ")) for f in in_build)
+    for f in allv:
+        if f in in_build:
+            continue
+        if re.search(r"\b" + re.escape(f.stem) + r"\b", requires):
+            in_build.append(f)
+            info["problems"].append(f"{f.name} is required by the build but not listed in _CoqProject")
+    for f in in_build:
+        for m in GATE_RE.finditer(texts[f]):
             info["gate_hits"].append(f"{f.name}:{m.group(1)}")
     if info["gate_hits"]:
         info["problems"].append("forbidden construct: " + ", ".join(info["gate_hits"][:5]))
